@@ -38,7 +38,9 @@ RULE = ('every DAG shape over {Config with string defaults, Config with a '
         '(None / each tag subset / clear_field_tags)}; auto_config.inline on '
         'every subset of auto_config nodes of fixture programs (with and '
         'without arguments, the same helper called several times); convert_dataclasses_to_'
-        'configs on every dataclass instance graph of a small grammar')
+        'configs on every dataclass instance graph of a small grammar (incl. an '
+        'init=False field between init fields); a configuration that cannot '
+        'be built does not become buildable by being transformed')
 ASSUMPTIONS = [
     'builds are compared structurally (values, types, sharing of mutable '
     'objects); a functools.partial is compared by (function, positional '
